@@ -163,6 +163,7 @@ pub fn orient(t: &mut Toks) -> String {
     let mut o = Orientation { rotation: rot_of(t.n()), mirrored: t.n() != 0 };
     let n = t.n();
     let ops: Vec<i64> = (0..n).map(|_| t.n()).collect();
+    let mut m = SetAddressMode::new(ColorOrder::Rgb, o, RefreshOrder::default());
     let r = catch_unwind(AssertUnwindSafe(|| {
         for k in ops.iter() {
             o = match *k {
@@ -170,12 +171,13 @@ pub fn orient(t: &mut Toks) -> String {
                 4 => o.flip_horizontal(),
                 _ => o.flip_vertical(),
             };
+            // the address mode is updated in place after every step, as a running display does it
+            m = m.with_orientation(o);
         }
         o
     }));
     match r {
         Ok(o) => {
-            let m = SetAddressMode::new(ColorOrder::Rgb, o, RefreshOrder::default());
             let mut b = [0u8; 1];
             m.fill_params_buf(&mut b);
             format!("(ROk, {}, {}, {})", rot_id(o.rotation), o.mirrored, b[0])
